@@ -114,6 +114,7 @@ class World:
         self.repo = repo
         self.modules: dict[str, ModuleInfo] = {}
         self.models: list[ModuleInfo] = []
+        self._class_index = None
         for path in model_paths:
             with open(path, encoding="utf-8") as handle:
                 self.models.append(ModuleInfo(path, "model:" + os.path.basename(path), handle.read()))
@@ -167,7 +168,37 @@ class World:
         for model in self.models:
             if name in model.classes:
                 return model.classes[name]
+        # not loaded yet: consult the index of class definitions of the repository
+        index = self.class_index()
+        files = [f for f in index.get(name, []) if "/test" not in f]
+        if prefer and prefer in files:
+            files = [prefer]
+        if len(files) == 1:
+            return self.load(files[0]).classes.get(name)
+        if len(files) > 1:
+            raise KeyError(f"ambiguous class {name}: {files}")
         return None
+
+    def class_index(self) -> dict[str, list[str]]:
+        if self._class_index is None:
+            import re
+            self._class_index = {}
+            pattern = re.compile(r"^class (\w+)", re.M)
+            base = os.path.join(self.repo, "antismash")
+            for root, _dirs, files in os.walk(base):
+                for fname in files:
+                    if not fname.endswith(".py"):
+                        continue
+                    path = os.path.join(root, fname)
+                    try:
+                        with open(path, encoding="utf-8") as handle:
+                            text = handle.read()
+                    except OSError:
+                        continue
+                    rel = os.path.relpath(path, self.repo)
+                    for match in pattern.finditer(text):
+                        self._class_index.setdefault(match.group(1), []).append(rel)
+        return self._class_index
 
     def find_function(self, name: str, prefer: Optional[str] = None) -> Optional[tuple[ModuleInfo, ast.FunctionDef]]:
         if prefer and prefer in self.modules and name in self.modules[prefer].functions:
